@@ -22,7 +22,7 @@ RULE = (
     "lets exactly one thread run and takes the next thread from the generated schedule (a thread "
     "waiting for a held lock is not runnable; 'unfinished threads, none runnable' = deadlock). "
     "Scenarios: same variable x2 / x3, different variables (of different and of identical "
-    "geometry), original + pickled copy, pickled copies only; each thread loads a generated selection. Quick: Hypothesis-drawn schedules "
+    "geometry), original + pickled copy, pickled copies only, original + copy of a tree that was pickled before its first read; each thread loads a generated selection. Quick: Hypothesis-drawn schedules "
     "(lists of choices) plus a bounded depth-first enumeration; thorough: depth-first "
     "enumeration of ALL distinct interleavings for every 2-thread scenario and a bounded set for "
     "3 threads. Oracle: every thread's array is bit-equal to the single-threaded result, all "
@@ -48,7 +48,8 @@ SCENARIOS = ["same-var-2", "same-var-3", "different-vars", "pickled+original", "
              "same-geometry-vars", "same-geometry-pickled",
              # the same on a filesystem that hands out one shared file object per path (memory://)
              "same-var-2@shared", "pickled+original@shared", "pickled-only@shared", "mixed-3@shared",
-             "unpickle-while-loading", "unpickle-while-loading@shared"]
+             "unpickle-while-loading", "unpickle-while-loading@shared",
+             "pickled-early", "pickled-early@shared", "pickled-early-3@shared"]
 
 
 class SchedulerAbort(BaseException):
@@ -240,6 +241,32 @@ def world(shared=False):
     return tree, copy
 
 
+@functools.lru_cache(maxsize=None)
+def world_pickled_early(shared=False):
+    """a tree that is pickled BEFORE anything has been read from it (what a scheduler does that
+    ships the opened tree to its workers right away); both the original and the copy then do one
+    small warm-up read, and only then are their locks made cooperative - so whatever locking the
+    library sets up lazily, at the first read, is in place and is what the scheduler sees"""
+    spec = common.spec_from({"level": "1.5", "images": [{"lines": 5, "pixels": 3}, {"lines": 5, "pixels": 2}, {"lines": 5, "pixels": 3}], "vseed": 19})
+    files, info = product.build_product(spec)
+    prod = harness.Materialised(files, "vtrace").__enter__()
+    if shared:
+        vtrace.STORE.shared_products.add(prod.name)
+    tree, err = harness.guard(harness.open_tree, prod.url, use_cache=False, records_per_chunk=2)
+    if err is not None:
+        raise harness.SetupViolation(harness.disc("exception", "open_alos2", "a tree", harness.exc_text(err)))
+    try:
+        copy = pickle.loads(pickle.dumps(tree))
+    except Exception as e:  # noqa: BLE001
+        raise harness.SetupViolation(harness.disc("tree-not-picklable", "pickle round trip of a freshly opened tree", "a copy", harness.exc_text(e)))
+    for t in (tree, copy):
+        for group in ("HH", "HV", "VH"):
+            np.asarray(t[f"imagery/{group}"]["data"].isel(rows=0).values)
+    install_cooperative_locks(tree)
+    install_cooperative_locks(copy)
+    return tree, copy
+
+
 def to_sel(sel):
     kind, *rest = sel["rows"]
     if kind == "slice":
@@ -268,6 +295,9 @@ def actors(scenario):
         "same-geometry-pickled": [("tree", "HH"), ("copy", "VH")],
         # a thread that first unpickles a copy of the tree and then loads from it
         "unpickle-while-loading": [("tree", "HH"), ("fresh-copy", "HH")],
+        # original and copy of a tree that was pickled before its first read
+        "pickled-early": [("early-tree", "HH"), ("early-copy", "HH")],
+        "pickled-early-3": [("early-tree", "HH"), ("early-copy", "HH"), ("early-copy", "VH")],
     }[scenario]
 
 
@@ -294,6 +324,8 @@ def run_threads(acts, sels, schedule, shared=False):
                 # (whatever unpickling does to shared files happens in the middle of their reads)
                 t = pickle.loads(BLOBS[shared])
                 install_cooperative_locks(t)
+            elif which.startswith("early-"):
+                t = world_pickled_early(shared)[0 if which == "early-tree" else 1]
             else:
                 t = tree if which == "tree" else copy
             results[tid] = np.asarray(t[f"imagery/{group}"]["data"].isel(**to_sel(SELECTIONS[sel_index])).values)
